@@ -152,12 +152,15 @@ class AbstractFormat:
         )
 
     def __abs__(self) -> 'AbstractFormat':
-        """Absolute value of the format (clamps the negative bound to zero)."""
+        """Absolute value of the format (folds the negative bound onto the positive one)."""
         # abs maps -inf to +inf, so +inf is present if either infinity was.
         # `has_neg_zero` is left at its default: `abs` never yields a negative
         # zero, so false is the derived answer here, not an omission.
+        # The bounds need not be symmetric (two's complement, unsigned operands
+        # negated), so the image reaches as far as the larger of the two.
+        pos_bound = max(self.pos_bound, -self.neg_bound)
         return AbstractFormat(
-            self.prec, self.exp, self.pos_bound, neg_bound=RealFloat.from_int(0),
+            self.prec, self.exp, pos_bound, neg_bound=RealFloat.from_int(0),
             has_pos_inf=self.has_pos_inf or self.has_neg_inf, has_neg_inf=False, has_nan=self.has_nan,
         )
 
